@@ -5,7 +5,7 @@ open KafVerif KafVerif.Router
 /-! Line-protocol driver for the router model (C20); same lines as harness/C20/root/cmd/verif_c20. -/
 
 structure D where
-  fixed : Bool
+  var : Variant
   accl : List Nat
   w : World
 
@@ -16,18 +16,32 @@ def D.acc (d : D) : Nat → Bool := fun k => d.accl.contains k
 def showMap (t : Nat → Option Nat) : String :=
   joinWith "," ((List.range NK).filterMap fun k => (t k).map fun v => s!"{k}:b{v}")
 
-def syncLine (d : D) : D × String :=
-  let w := if d.w.r.watching then deliverN d.acc d.fixed (d.w.log.length - d.w.r.cursor) d.w else d.w
-  let d' := { d with w := w }
-  (d', s!"table={showMap w.r.table} lookup={showMap w.r.table} etcd={showMap (stateAt d.acc w.log w.log.length)}")
+/-- key id of the harness's sync sentinel (a key both parsers reject) -/
+def SENT : Nat := 99
 
-def ap (d : D) (op : Op) : D × String := ({ d with w := step d.acc d.fixed d.w op }, "-")
+def syncLine (d : D) : D × String :=
+  -- the harness commits a sentinel put + delete under the prefix and waits until the router has consumed them
+  let w0 := if d.w.r.watching then step d.acc d.var (step d.acc d.var d.w (.put SENT 0)) (.del SENT) else d.w
+  let w := if w0.r.watching then deliverN d.acc d.var (w0.log.length - w0.r.cursor) w0 else w0
+  let d' := { d with w := w }
+  (d', s!"watching={w.r.watching} table={showMap w.r.table} lookup={showMap w.r.table} etcd={showMap (stateAt d.acc w.log w.log.length)}")
+
+def ap (d : D) (op : Op) : D × String := ({ d with w := step d.acc d.var d.w op }, "-")
+
+def parseEv (w : String) : Option Ev :=
+  match w.splitOn ":" with
+  | ["p", k, v] => match k.toNat?, v.toNat? with
+    | some k, some v => some (.put k v)
+    | _, _ => none
+  | ["d", k] => k.toNat?.map Ev.del
+  | _ => none
 
 def stepLine (d : D) (ws : List String) : D × String :=
   match ws with
   | ["reset", v, accs] =>
     let accl := (accs.splitOn ",").filterMap String.toNat?
-    ({ fixed := v != "norev", accl := accl, w := init }, "reset")
+    let var := if v == "norev" then Variant.noRev else if v == "skipsamerev" then Variant.skipSameRev else Variant.fixed
+    ({ var := var, accl := accl, w := init }, "reset")
   | ["put", k, v] => match k.toNat?, v.toNat? with
     | some k, some v => ap d (.put k v)
     | _, _ => (d, "bad-op")
@@ -37,7 +51,11 @@ def stepLine (d : D) (ws : List String) : D × String :=
   | ["start"] => (d, "-")
   | ["load", "ok"] => ap d .load
   | ["load", "fail"] => ap d .loadFail
-  | ["watch"] => ap d .watch
+  | ["watch"] =>
+    let w' := step d.acc d.var d.w .watch
+    ({ d with w := w' }, if w'.r.watching then "-" else "watch-failed")
+  | "batch" :: evs => ap d (.batch (evs.filterMap parseEv))
+  | ["compact"] => ap d .compact
   | ["close"] => ap d .close
   | ["invalidate", k] => match k.toNat? with
     | some k => ap d (.invalidate k)
@@ -45,4 +63,4 @@ def stepLine (d : D) (ws : List String) : D × String :=
   | ["sync"] => syncLine d
   | _ => (d, "bad-op")
 
-def main : IO Unit := runLines ({ fixed := true, accl := [], w := init } : D) stepLine
+def main : IO Unit := runLines ({ var := .fixed, accl := [], w := init } : D) stepLine
